@@ -49,8 +49,9 @@ func (si *SearchIndex) Search(targetKey []byte, readKey func(offset int64) ([]by
 	}
 
 	// BinarySearch returns the _greater_ index when we don't find an exact match
-	// so subtract one here to start searching from the earlier index.
-	if !isExact {
+	// so subtract one here to start searching from the earlier index. A target
+	// below the first indexed key has no earlier index: scan from the first one.
+	if !isExact && foundIndex > 0 {
 		foundIndex--
 	}
 
